@@ -4,7 +4,7 @@
    exchange returns for wire query w: a decoded reply ([UReply]) or a failure ([UFail]: error, undecodable reply,
    connection failure, silence until the deadline — the transports turn all of these into an error, C14/C01).
    [respond l m r] is mustHaveRespB + the listener's single write. *)
-From Mos Require Import Base.Prelude Codec.Name Codec.Msg Router.Rules Router.Edns Router.Router Router.RouterSpec
+From Mos Require Import Base.Prelude Codec.Name Codec.Msg Codec.WfProofs Router.Rules Router.Edns Router.Router Router.RouterSpec
   Router.RouterProofs Cache.CachePolicy Router.Cached Router.CachedProofs.
 
 (* The response carries the query's ID, opcode and RD bit, QR=1 and RA=1 — for every query, configuration,
@@ -91,16 +91,18 @@ Example C03_k4_example :
 Proof. vm_compute. auto. Qed.
 
 (* The same clauses on a CACHING proxy (Router/Cached.v: the request path composed with cacheCtl.Get/Store and the
-   prefetch), in every state reachable by any history of requests, prefetches, clock ticks, collections and evictions:
-   the header fix-up and the question clause hold for EVERY response, also one served from cache (the entry was stored
-   under the key of a question its own question section matches, and the key determines the question:
-   C07_cache_key_injective); and a request makes at most one upstream query, none when it is served from cache. *)
-Theorem C03_cached : forall matches rules ecs up ckey maxttl,
+   prefetch), in every state reachable by any history of (decoded, hence well-formed) requests, prefetches, clock ticks,
+   collections and evictions: the header fix-up and the question clause hold for EVERY response, also one served from
+   cache (the entry was stored under the key of a question its own question section matches, and the real cache key
+   [real_ckey] determines the question: cache_key_injective); and a request makes at most one upstream query, none when
+   it is served from cache, and only a cache hit starts a prefetch. *)
+Theorem C03_cached : forall matches rules ecs up (mark : addr -> list N) maxttl,
   (forall u w r, up u w = UReply r -> count_opt (m_ar r) <= 1) ->
-  (forall q1 c1 q2 c2, ckey q1 c1 = ckey q2 c2 -> q1 = q2) ->
+  (forall c, bytes (mark c)) ->
   forall (clk : N) (evs : list cev) (t ts eps : Z) (m : msg) (client : addr),
-  let st := fst (crun matches rules ecs up ckey maxttl (init_state clk) evs) in
-  let o := snd (handle_c matches rules ecs up ckey maxttl st t ts eps m client) in
+  Forall cev_wf evs -> wf_msg m ->
+  let st := fst (crun matches rules ecs up (real_ckey mark) maxttl (init_state clk) evs) in
+  let o := snd (handle_c matches rules ecs up (real_ckey mark) maxttl st t ts eps m client) in
   let r := co_resp o in
   (h_id (m_hdr r) = h_id (m_hdr m) /\ h_opcode (m_hdr r) = h_opcode (m_hdr m) /\ h_resp (m_hdr r) = true /\
    h_ra (m_hdr r) = true /\ h_rd (m_hdr r) = h_rd (m_hdr m)) /\
@@ -111,11 +113,13 @@ Theorem C03_cached : forall matches rules ecs up ckey maxttl,
   end /\
   (co_cached o = true -> co_eff o = []) /\ length (co_eff o) <= 1 /\ (co_prefetch o = true -> co_cached o = true).
 Proof.
-  intros matches rules ecs up ckey maxttl H1 Hinj clk evs t ts eps m client st o r.
-  assert (Hi : cinv ecs up ckey st) by (apply (crun_inv matches rules ecs up ckey maxttl H1 Hinj); apply cinv_init).
-  split; [apply (handle_c_header matches rules ecs up ckey maxttl)|].
-  split; [apply (handle_c_question matches rules ecs up ckey maxttl H1 Hinj _ _ _ _ _ _ Hi)|].
-  apply (handle_c_effects matches rules ecs up ckey maxttl H1 Hinj _ _ _ _ _ _ Hi).
+  intros matches rules ecs up mark maxttl H1 Hm clk evs t ts eps m client Hev Hwm st o r.
+  pose proof (real_ckey_inj mark Hm) as Hinj.
+  assert (Hi : cinv ecs up (real_ckey mark) st)
+    by (apply (crun_inv matches rules ecs up (real_ckey mark) maxttl H1 Hinj _ Hev); apply cinv_init).
+  split; [apply (handle_c_header matches rules ecs up (real_ckey mark) maxttl)|].
+  split; [apply (handle_c_question matches rules ecs up (real_ckey mark) maxttl H1 Hinj _ _ _ _ _ _ Hi Hwm)|].
+  apply (handle_c_effects matches rules ecs up (real_ckey mark) maxttl H1 Hinj _ _ _ _ _ _ Hi Hwm).
 Qed.
 Print Assumptions C03_cached.
 
